@@ -203,6 +203,7 @@ type VM struct {
 	Oracles []Oracle
 	Disk    *Disk
 	cur     int
+	CurRand *SimRand               // entropy source handed to the library by the current op
 	Ext     map[string]interface{} // oracle-private state
 }
 
